@@ -86,7 +86,7 @@ structure WF (e : Ep) : Prop where
   /-- `_send_sack` reads `_last_received_tsn` -/
   sack : e.sackNeeded = true → e.rx.isSome
   /-- no application handler that re-enters the API is armed (**NoReact**): such a handler may `send()` on a partially
-  reliable channel opened by the peer, which `NoPR` cannot admit; the general case is `Aiortc.Sctp.V2.WF` -/
+  reliable channel opened by the peer, which `NoPR` rules out; the general case is `Aiortc.Sctp.V2.WF` -/
   nr : e.reactions = []
 
 /-- The exceptions the (unfixed) model is known to raise on the receive path:
